@@ -14,6 +14,22 @@ const RSA_PUB: &[u8] = include_bytes!(concat!(env!("PV_FIXTURES"), "/rsa/k0.pub.
 const SYM: &str = "707172737475767778797a7b7c7d7e7f808182838485868788898a8b8c8d8e8f";
 const NONCE: &str = "26f7553354482a1d91d4784627854b8da6b8042a7966523c2b404e8dbbe7f7f2";
 
+// Known answers: what the specification's algorithms produce for the constants above (printed by `pv smoke-kat`, i.e. by
+// the harness's independent transcription of the spec, which is pinned to the official test vectors). A feature
+// combination in which a protocol still round-trips with itself but no longer speaks the protocol is caught by these.
+#[allow(dead_code)]
+const KAT_V1_LOCAL: &str = "v1.local.BbkAJkPaj-RrqnJTjQeYQNZhwcept9MX1KOmeU0bj-wUR0u5LsPxiBRoAV1548iGnzY652PJ18u1xtZVeFZWGyXNxNoEgvgPLZtjxtbVGExX8ag532UJWhEr0YC-nwOteCM8rV38QJUNo-iuEHT8qumN_yIEZL6S2WxgoV4RvcWiERwcK5AVnZBUxDBFYPMF-wKAz7x5PD06rZBU-wujbAyZ97uYYslpPw.eyJraWQiOiJzbW9rZSJ9";
+#[allow(dead_code)]
+const KAT_V2_LOCAL: &str = "v2.local.9-BlJ2O5xN5abCpK9eiaGbYXR_Xl2Y70tPsyyVT3ah5bQ3_0FWtYz6Ia3LnYh2wj5mrQRjgX4aijErXJWUAyOsan8Ofl47VcagQEsH-Sdl9w-okKzx0FKGZc0A6D-_XQUxpAF_DbLRyn7N--1ij1zMVHpgYv_nRVhoU7RiTlUtwN.eyJraWQiOiJzbW9rZSJ9";
+#[allow(dead_code)]
+const KAT_V3_LOCAL: &str = "v3.local.JvdVM1RIKh2R1HhGJ4VLjaa4BCp5ZlI8K0BOjbvn9_LwY78vQnDait-X_875UoaepKfUF-oOy1E-X3G50zLVWqzFLj03t7Qk0TduOl2SezIOss8Vnz7xg1OhCiuUIHO2vH0QTMpmH5flk1tQrO_l0CYd7ljX30p_AML2Rx652HKgYb5H97qW43HXnWvDWBW1Q37HgSO6k3EPcnbnlB249w62l3_qFUmP4A.eyJraWQiOiJzbW9rZSJ9";
+#[allow(dead_code)]
+const KAT_V4_LOCAL: &str = "v4.local.JvdVM1RIKh2R1HhGJ4VLjaa4BCp5ZlI8K0BOjbvn9_L6qU34Aj806z9GGGikd2qLh3g2wiZvi3F7biHZ0Ep_yl1P3ocii9WeS2dOdmq_ajJxKAroVcw9nQZhzulS_Lkgou-pIE32cyRpqQivxQ9G2ozrYnTLrfzTvtP3sY7WHpRVS9FRwTyRV9-hETOwlxSapFb2NXtjk0uQ.eyJraWQiOiJzbW9rZSJ9";
+#[allow(dead_code)]
+const KAT_V2_PUBLIC: &str = "v2.public.eyJkYXRhIjoic21va2Ug8J-mgCBtZXNzYWdlIGNyb3NzaW5nIG9uZSBibG9jayAuLi4uLi4uLi4uLi4uLi4uLi4uLi4uLi4uLi4uLi4uLi4uLi4uLi4uIn3lNlc2bTyxo5rgRqcDtzz_8GQ2Frda6wGQRIiTAqopsrtBzhmXleaGEDA_UMw_JJWNrkKTyZOFZeJW3JuZDVcL.eyJraWQiOiJzbW9rZSJ9";
+#[allow(dead_code)]
+const KAT_V4_PUBLIC: &str = "v4.public.eyJkYXRhIjoic21va2Ug8J-mgCBtZXNzYWdlIGNyb3NzaW5nIG9uZSBibG9jayAuLi4uLi4uLi4uLi4uLi4uLi4uLi4uLi4uLi4uLi4uLi4uLi4uLi4uIn2VqUgIe5Kovn8tuBPgrh267_pgwG7aX5Rzg6sGVyZtC2SRoi-_e3w5Q7k7oZkLYCncGUa9u5h8VBdOHcNIPA4C.eyJraWQiOiJzbW9rZSJ9";
+
 fn fail(what: &str) -> ! {
   println!("FAIL {}", what);
   std::process::exit(1)
@@ -64,7 +80,7 @@ mod core_layer {
   use rusty_paseto::core::*;
 
   macro_rules! local_nist_or_v2 {
-    ($name:ident, $feat:literal, $V:ident, $label:literal) => {
+    ($name:ident, $feat:literal, $V:ident, $label:literal, $kat:ident) => {
       #[cfg(feature = $feat)]
       pub fn $name() {
         local_keys!($V, key);
@@ -78,12 +94,19 @@ mod core_layer {
         if back != MSG || !token.starts_with(concat!($label, ".")) {
           fail(concat!($label, " core round trip mismatch"));
         }
+        if token != $kat {
+          fail(&format!(concat!($label, " core: token differs from the specification's known answer: {}"), token));
+        }
+        let back = ok!(Paseto::<$V, Local>::try_decrypt($kat, &key, Footer::from(FOOT)), concat!($label, " core decrypt of the known answer"));
+        if back != MSG {
+          fail(concat!($label, " core: known-answer token decrypts to something else"));
+        }
         println!(concat!("OK ", $label, " core"));
       }
     };
   }
   macro_rules! local_modern {
-    ($name:ident, $feat:literal, $V:ident, $label:literal) => {
+    ($name:ident, $feat:literal, $V:ident, $label:literal, $kat:ident) => {
       #[cfg(feature = $feat)]
       pub fn $name() {
         local_keys!($V, key);
@@ -104,14 +127,24 @@ mod core_layer {
         if back != MSG || !token.starts_with(concat!($label, ".")) {
           fail(concat!($label, " core round trip mismatch"));
         }
+        if token != $kat {
+          fail(&format!(concat!($label, " core: token differs from the specification's known answer: {}"), token));
+        }
+        let back = ok!(
+          Paseto::<$V, Local>::try_decrypt($kat, &key, Footer::from(FOOT), ImplicitAssertion::from(ASSERT)),
+          concat!($label, " core decrypt of the known answer")
+        );
+        if back != MSG {
+          fail(concat!($label, " core: known-answer token decrypts to something else"));
+        }
         println!(concat!("OK ", $label, " core"));
       }
     };
   }
-  local_nist_or_v2!(v1_local, "use_v1_local", V1, "v1.local");
-  local_nist_or_v2!(v2_local, "use_v2_local", V2, "v2.local");
-  local_modern!(v3_local, "use_v3_local", V3, "v3.local");
-  local_modern!(v4_local, "use_v4_local", V4, "v4.local");
+  local_nist_or_v2!(v1_local, "use_v1_local", V1, "v1.local", KAT_V1_LOCAL);
+  local_nist_or_v2!(v2_local, "use_v2_local", V2, "v2.local", KAT_V2_LOCAL);
+  local_modern!(v3_local, "use_v3_local", V3, "v3.local", KAT_V3_LOCAL);
+  local_modern!(v4_local, "use_v4_local", V4, "v4.local", KAT_V4_LOCAL);
 
   #[cfg(feature = "use_v1_public")]
   pub fn v1_public() {
@@ -136,6 +169,9 @@ mod core_layer {
     let back = ok!(Paseto::<V2, Public>::try_verify(&token, &pk, Footer::from(FOOT)), "v2.public core verify");
     if back != MSG || !token.starts_with("v2.public.") {
       fail("v2.public core round trip mismatch");
+    }
+    if token != KAT_V2_PUBLIC {
+      fail(&format!("v2.public core: token differs from the specification's known answer (Ed25519 signatures are deterministic): {}", token));
     }
     println!("OK v2.public core");
   }
@@ -176,6 +212,9 @@ mod core_layer {
     );
     if back != MSG || !token.starts_with("v4.public.") {
       fail("v4.public core round trip mismatch");
+    }
+    if token != KAT_V4_PUBLIC {
+      fail(&format!("v4.public core: token differs from the specification's known answer (Ed25519 signatures are deterministic): {}", token));
     }
     println!("OK v4.public core");
   }
